@@ -353,14 +353,19 @@ long chan_write(int chan, int end, long n)
 		n = 65536;
 	if (n < 1)
 		n = 1;
-	memset(buf, 0x5a, (size_t)n);
+	if (c->ctype == 0 && n > 4096)
+		n = 4096;
+	if (PL->obj[chan].p[2])
+		ext4_stream_fill(chan, (unsigned char *)buf, n);
+	else
+		memset(buf, 0x5a, (size_t)n);
 	if (c->ctype == 0) {
-		if (n > 4096)
-			n = 4096;
 		r = raw_write(fd, buf, n);
 	} else {
 		r = syscall(SYS_sendto, (long)fd, buf, (long)n, (long)(MSG_DONTWAIT | MSG_NOSIGNAL), NULL, 0L);
 	}
+	if (PL->obj[chan].p[2])
+		ext4_stream_written(chan, r);
 	return r;
 }
 
@@ -373,7 +378,7 @@ long chan_read(int chan, int end, long n)
 
 	if (!c->copen[end] || c->ctype >= 3)
 		return -1;
-	if (raw_poll0(&p, 1) <= 0 || !(p.revents & POLLIN))
+	if (raw_poll0(&p, 1) <= 0 || !(p.revents & (POLLIN | POLLHUP)))
 		return -1;
 	if (c->ctype == 2)
 		n = 8;
@@ -381,7 +386,12 @@ long chan_read(int chan, int end, long n)
 		n = 65536;
 	if (n < 1)
 		n = 1;
-	return raw_read(fd, buf, n);
+	{
+		long r = raw_read(fd, buf, n);
+		if (r >= 0 && c->ctype < 2)
+			ext4_stream_verify(chan, (unsigned char *)buf, r);
+		return r;
+	}
 }
 
 /* ---- handlers ------------------------------------------------------------------------- */
@@ -804,6 +814,7 @@ int exec_op(struct rthr *th, const struct pop *op)
 			break;
 		raw_close(c->cfd[end]);
 		c->copen[end] = 0;
+		ext4_chan_closed((int)op->d, end, 0);
 		PROBE[PR_FD_HUP]++;
 		simk_log(101, OP_CLOSE, op->d * 2 + end);
 		r = 1;
@@ -815,6 +826,8 @@ int exec_op(struct rthr *th, const struct pop *op)
 		if (PL->obj[op->d].kind != K_CHAN || c->ctype != 1 || !c->copen[end])
 			break;
 		syscall(SYS_shutdown, (long)c->cfd[end], (long)op->b);
+		if (op->b != SHUT_RD)
+			ext4_chan_closed((int)op->d, end, 1);
 		PROBE[PR_FD_HUP]++;
 		simk_log(101, OP_SHUTDOWN, op->d * 2 + end);
 		r = 1;
@@ -1042,6 +1055,7 @@ static void obs_wait_enter(int tid, int prim, int64_t tmo, int nfds)
 	if (th == NULL || th->api_try)
 		return;
 	ext3_wait_enter(th);
+	ext4_wait_enter(th);
 	th->nwaits++;
 	th->wait_tmo = tmo;
 	th->clock_at_wait = th->last_clock;
@@ -1623,7 +1637,7 @@ void engine_run(const struct plan *p, int result_fd, int verbose)
 	if (p->nthr > 0 && p->thr[0].kind != 'L')
 		first_init_done = 1;
 
-	for (rounds = 0; rounds < 64; rounds++) {
+	for (rounds = 0; rounds < 4000; rounds++) {
 		int budget, all = 1, asked = 0;
 
 		budget = simk_wait_quiescence();
@@ -1637,6 +1651,10 @@ void engine_run(const struct plan *p, int result_fd, int verbose)
 			ext_budget("vtime");
 			finish(2);
 		}
+		/* the environment's last duty: consumers drain what is still readable; if that moved
+		 * anything, the system is not quiescent after all */
+		if (ext4_quiesce_progress())
+			continue;
 		check_obligations(0);
 		if (have_viol())
 			finish(1);
